@@ -1,6 +1,7 @@
 package props
 
 import (
+	"sort"
 	"fmt"
 
 	kcp "github.com/xtaci/kcp-go/v5"
@@ -248,4 +249,69 @@ func runPairUntilComplete(p *sim.Pair, s *sim.SessSim, faultsEnd int64, segs int
 		}
 	}
 	return err
+}
+
+// sessRetune is one tuning call made in mid-connection.
+type sessRetune struct {
+	AtMs int64
+	End  int
+	Kind string // wnd | nodelay | writedelay | acknodelay
+	A    [4]int
+}
+
+// drawRetunes draws up to three tuning calls at virtual times during the
+// transfer. The receive window is only ever raised (a receiver that shrinks
+// its window under a sender that has already been told the larger one is
+// slow for hours of virtual time, never wrong); the deprecated stream-mode
+// switch is left alone.
+func drawRetunes(t *rapid.T, cfg sim.PairCfg) []sessRetune {
+	var out []sessRetune
+	for i, n := 0, rapid.SampledFrom([]int{0, 0, 1, 2, 3}).Draw(t, "nRetunes"); i < n; i++ {
+		r := sessRetune{AtMs: int64(rapid.SampledFrom([]int{3, 40, 250, 1500, 20_000}).Draw(t, "retuneAt")), End: rapid.IntRange(0, 1).Draw(t, "retuneEnd")}
+		switch rapid.IntRange(0, 3).Draw(t, "retuneKind") {
+		case 0:
+			r.Kind = "wnd"
+			r.A[0] = rapid.SampledFrom([]int{1, 2, 4, 16, 64, 512}).Draw(t, "retuneSnd")
+			r.A[1] = cfg.Opts[r.End].RcvWnd * rapid.SampledFrom([]int{1, 2, 8}).Draw(t, "retuneRcvMul")
+		case 1:
+			r.Kind = "nodelay"
+			r.A = [4]int{rapid.IntRange(0, 1).Draw(t, "rtNd"), rapid.SampledFrom([]int{10, 20, 40, 100, 200}).Draw(t, "rtIv"), rapid.SampledFrom([]int{0, 1, 2, 5}).Draw(t, "rtRs"), rapid.IntRange(0, 1).Draw(t, "rtNc")}
+		case 2:
+			r.Kind = "writedelay"
+			r.A[0] = rapid.IntRange(0, 1).Draw(t, "rtWd")
+		default:
+			r.Kind = "acknodelay"
+			r.A[0] = rapid.IntRange(0, 1).Draw(t, "rtAnd")
+		}
+		out = append(out, r)
+	}
+	sort.SliceStable(out, func(i, j int) bool { return out[i].AtMs < out[j].AtMs })
+	return out
+}
+
+// runPairWithRetunes runs the pair up to each tuning call's time, makes the
+// call, and returns how many were made while data was still to be moved.
+func runPairWithRetunes(p *sim.Pair, s *sim.SessSim, rts []sessRetune) (made int, err error) {
+	for _, r := range rts {
+		if err = p.Run(r.AtMs, false); err != nil || p.Complete() {
+			return
+		}
+		x := p.Sess[r.End]
+		if x == nil {
+			continue
+		}
+		switch r.Kind {
+		case "wnd":
+			x.SetWindowSize(r.A[0], r.A[1])
+		case "nodelay":
+			x.SetNoDelay(r.A[0], r.A[1], r.A[2], r.A[3])
+		case "writedelay":
+			x.SetWriteDelay(r.A[0] == 1)
+		case "acknodelay":
+			x.SetACKNoDelay(r.A[0] == 1)
+		}
+		made++
+		s.Quiesce()
+	}
+	return
 }
